@@ -26,7 +26,7 @@ CACHE = os.environ.get("VERIF_CACHE", os.path.join(VERIF, ".cache"))
 FACTS = os.path.join(CACHE, "facts")
 TARGET = os.path.join(CACHE, "target")
 LENS = os.path.join(VERIF, "lens", "target", "release", "lens")
-FOCUS = os.path.join(VERIF, "rules", "focus.txt")
+FOCUS = os.environ.get("VERIF_FOCUS", os.path.join(VERIF, "rules", "focus.txt"))
 RUSTFLAGS = "-Zmir-opt-level=0 -Awarnings"
 
 # Workspace library crates (crate names as rustc sees them).  Confirmed against
